@@ -443,7 +443,9 @@ func (r *PipelineRunner) HandleTaskChange(t *task.Task) {
 	// then we directly abort all other tasks of the job.
 	// NOTE: this is NOT the context.Canceled case from above (if a job is explicitly aborted), but only
 	// if one task failed, and we want to kill the other tasks.
-	if jt.Errored {
+	// The failure of a task that allows failure does not fail the job (the task runner reports such a task as errored
+	// if it failed with something else than an exit status, e.g. a command that could not be started).
+	if jt.Errored && !jt.AllowFailure {
 		pipelineDef, found := r.defs.Pipelines[j.Pipeline]
 		if found && !pipelineDef.ContinueRunningTasksAfterFailure {
 			log.
